@@ -43,3 +43,4 @@ import SluVerif.Proofs.InitCursor
 #print axioms Slu.parallelInit_queue_cursors
 #print axioms Slu.parallelInit_sizes
 #print axioms Slu.initLoop_fb
+#print axioms Slu.initLoop_state
